@@ -372,6 +372,11 @@ def points_parity(prog, chk):
                 continue
             other.append(b.where(blk))
         name = b.local_name(l) or f"_{l}"
+        if other and not resets:
+            # the counter is not maintained by hand (`idx += 1`) but handed out by something else (enumerate(), a fold):
+            # it is not reset inside the scan; how it advances is not read here
+            chk.undecided("A13.points-parity", f"bbox_raw:{name}", b.where(), f"the parity counter `{name}` is defined by something other than `= 0` / `+= 1` ({', '.join(other)}), e.g. an enumerate() index")
+            continue
         chk.ob(not resets and not other and incs >= 1, "A13.points-parity", f"bbox_raw:{name}", b.where(), f"`{name}` starts at 0 and is only incremented, once per number", f"the x/y parity counter `{name}` of the points scan is also reset / reassigned inside the scan ({', '.join(resets + other)}): after some separator sequences (e.g. `5, 5, 40, 30`) x and y values are told apart wrongly and the polyline's box - and the root extent - is wrong or missing")
 
 
